@@ -5,18 +5,22 @@ import MidnightZK.Model.C02.Identities
 import MidnightZK.Model.C02.Label
 import MidnightZK.Model.C01.Parse
 import MidnightZK.Gen.C02Consts
+import MidnightZK.Model.C02.Fld
+import MidnightZK.Model.C02.CsParams
 /-! Line-protocol handler of property C02:
 * `sat <cs fields> <table fields>` → verdicts of the row-level semantics;
+* `satrows <cs fields> <table fields> gr=… lr=…` → `verify_at_rows` on the given gate / lookup-input rows
+  and whether `assert_satisfied` returns;
 * `ids <shape fields> <cs fields> nc=… inst=… tr=…` → every identity value the verifier folds,
   `y`, `x^n`, `expected_h_eval`, recomputed by `Model/C02/Identities.lean` from the recorded
   transcript scalars labelled with `Model/C01/Schedule.lean: verifierSchedule`;
+* `csparams <shape fields> <cs fields>` → `degree()`, `blinding_factors()`, column sets, usable rows;
 * `domain k=…` → `omega` of the evaluation domain and `F::DELTA` from the generated constants. -/
 namespace MidnightZK.C02.Driver
 open MidnightZK MidnightZK.C02 MidnightZK.C02.Parse
 
 /-- The field of the proof system: constants regenerated from `curves/src/bls12_381/fq.rs`. -/
-def fld : Ids.Fld :=
-  { p := Consts.modulus, delta := Consts.delta, root := Consts.rootOfUnity, s := Consts.twoAdicity }
+def fld : Ids.Fld := blsFld
 
 def splitBy (sizes : List Nat) (l : List α) : List (List α) :=
   match sizes with
@@ -40,11 +44,9 @@ def parseStream (s : String) : Option (List (Bool × Nat)) :=
     | 'S' :: h => (parseHex? (String.ofList h)).map fun v => (true, v)
     | _ => none
 
-def answerIds (ws : List String) : Option String := do
-  let p ← parseHex? (← kv ws "p")
-  if p ≠ fld.p then none
+/-- The verifier's view of the constraint system (`ids_cs_string` of the harness). -/
+def parseVCS (ws : List String) : Option (C01.Shape × Ids.VCS) := do
   let sh ← C01.Parse.parseShape? ws
-  let nc ← parseNat? (← kv ws "nc")
   let gp ← parseNatList? (← kv ws "gp")
   let gatesFlat ← parseExprList (← kv ws "gates") ";"
   if gp.foldl (· + ·) 0 ≠ gatesFlat.length then none
@@ -54,16 +56,29 @@ def answerIds (ws : List String) : Option String := do
     l.mapM fun (a, b) => match a with | [q] => some (q, b) | _ => none)
   let pcols ← parsePermCols (← kv ws "pcols")
   if sh.numLookups ≠ lookups.length ∨ sh.numTrash ≠ trash.length ∨ sh.permCols ≠ pcols.length then none
-  let plain ← parseInst (← kv ws "inst")
-  let stream ← parseStream (← kv ws "tr")
-  let cs : Ids.VCS :=
+  pure (sh,
     { gates := splitBy gp gatesFlat, lookups := lookups, trash := trash, permCols := pcols,
       adviceQueries := sh.adviceQueries, fixedQueries := sh.fixedQueries,
-      instanceQueries := sh.instanceQueries, degree := sh.degree, blinding := sh.blinding, k := sh.k }
+      instanceQueries := sh.instanceQueries, degree := sh.degree, blinding := sh.blinding, k := sh.k })
+
+def answerIds (ws : List String) : Option String := do
+  let p ← parseHex? (← kv ws "p")
+  if p ≠ fld.p then none
+  let (sh, cs) ← parseVCS ws
+  let nc ← parseNat? (← kv ws "nc")
+  let plain ← parseInst (← kv ws "inst")
+  let stream ← parseStream (← kv ws "tr")
   match Label.run fld cs sh.advicePhase sh.challengePhase nc plain stream with
   | none => pure "schedule-mismatch"
   | some (ch, r) =>
     pure s!"n={r.ids.length} vals={fmtHexList (r.ids.map (·.2))} y={toHex ch.y} xn={toHex r.xn} h={toHex r.h}"
+
+/-- `csparams`: `degree()`, `blinding_factors()`, number of permutation column sets and number of
+usable rows recomputed from the dumped expressions / query lists (`deg=`, `bl=` are not read). -/
+def answerCsParams (ws : List String) : Option String := do
+  let (sh, cs) ← parseVCS ws
+  let bl := Ids.blindingFactors sh.advicePhase.length cs
+  pure s!"deg={Ids.csDegree cs} bl={bl} sets={Ids.csNumSets cs} usable={2 ^ cs.k - (bl + 1)}"
 
 def answer (line : String) : String :=
   match words line with
@@ -72,7 +87,13 @@ def answer (line : String) : String :=
     | some (cs, t) =>
       s!"rowSat={fmtBool (rowSat cs t)} mock={fmtBool (mockOK cs t)} gt={fmtBool (gatesOK cs t && trashOK cs t)} lookups={fmtBool (lookupsOKMock cs t)} copies={fmtBool (copiesOK cs t)}"
     | none => "bad-op"
+  | "satrows" :: rest =>
+    match parseCase rest, (kv rest "gr").bind parseNatList?, (kv rest "lr").bind parseNatList? with
+    | some (cs, t), some gr, some lr =>
+      s!"mockAt={fmtBool (mockOKAt cs t gr lr)} assert={fmtBool (mockOK cs t)}"
+    | _, _, _ => "bad-op"
   | "ids" :: rest => (answerIds rest).getD "bad-op"
+  | "csparams" :: rest => (answerCsParams rest).getD "bad-op"
   | ["domain", kk] =>
     match (if kk.startsWith "k=" then parseNat? (kk.drop 2).toString else none) with
     | some k => s!"omega={toHex (Ids.omegaOf fld k)} delta={toHex (fld.delta % fld.p)}"
